@@ -19,5 +19,10 @@ out=$(VERIF_DIR="$W/vd" timeout 1500 "$W/ht/release/ppp-verif" "$ID" --tier quic
 if [ "$ID" = C03 ] && [ $rc = 0 ]; then
   (cd "$W/verif/harness" && CARGO_TARGET_DIR="$W/ht" cargo build --profile checked --quiet >>"$W/build.log" 2>&1) && { out=$(VERIF_DIR="$W/vd" timeout 1500 "$W/ht/checked/ppp-verif" "$ID" --tier quick --no-evidence 2>/dev/null); rc=$?; }
 fi
+case "$ID" in C07|C09|C10|C13|C20)
+  if [ $rc = 0 ] && grep -q "checked" "$W/verif/check" 2>/dev/null && grep -q "C07|C09|C10|C13|C20" "$W/verif/check" 2>/dev/null; then
+    (cd "$W/verif/harness" && CARGO_TARGET_DIR="$W/ht" cargo build --profile checked --quiet >>"$W/build.log" 2>&1) && { out=$(VERIF_SCALE=0.25 VERIF_DIR="$W/vd" timeout 1500 "$W/ht/checked/ppp-verif" "$ID" --tier quick --no-evidence 2>/dev/null); rc=$?; }
+  fi ;;
+esac
 case $rc in 0) v=missed ;; 1) v=CAUGHT ;; *) v="inconclusive(rc=$rc)" ;; esac
 echo "BEFORE $NAME own=$ID harness=$COMMIT verdict=$v $(echo "$out" | grep -m1 'sig=' | sed 's/^ *//')"
